@@ -208,6 +208,21 @@ add(
     "Distinct basenames within a path (pid+counter prefixes). The asserted lag is one replacement less than the implemented one. Crash windows inside a step belong to C08.",
 )
 
+add(
+    "C08",
+    "fault enumeration: every main-process file-system effect of a target step is a crash point (byte-granular for file contents); recovery checked in fresh forks",
+    "For generated scenarios (configurations x step kinds: sh/wf accept, reject, zero-swap accept/reject, accept with deletion; also after an "
+    "earlier restart with jobs in flight) an interposer numbers every file-system effect of the main process inside treat_output (open-for-write, "
+    "content commit, move, remove, rmdir, makedirs, replace) in a dry run; then the process is killed before EVERY effect index (content commits: "
+    "0 bytes, a prefix, all but one byte), plus second crashes inside the recovery run. In fresh forks the restart must start and load every "
+    "path with non-zero weight, re-issue the recorded in-flight jobs, continue to the requested steps keeping the per-step invariants of "
+    "C04/C05/C14, list every replaced path exactly once in the data file and conserve the weights. Exhaustive over single crash points of the "
+    "chosen target steps; scenarios are sampled.",
+    "Crash = process death (os._exit), not power loss: data not yet written by the process is lost, written data persists. Buffered writes are "
+    "modelled as reaching the disk at close with an explicit generated prefix. Worker-side effects are not crash points.",
+    category="fault_enumeration",
+)
+
 NOT_YET = "check not built yet in this session (design exists in DESIGN.md §4); will be claimed once its check is registered"
 
 
